@@ -320,3 +320,92 @@ def run(chk):
         raise AnalysisError(f"{cb.key}: cannot establish the bin-feature table: construct outside the one-row abstraction: {e}")
     if fail:
         r5.violate(f"{cb.key}|bin-table", cb.where(), f"compute_temperature_bin_features: endpoints={list(fail[0])} T={fail[1]}: {fail[2]}", {"endpoints": list(fail[0]), "T": fail[1]})
+    _check_weights_on_callers_index(chk)
+
+
+def _check_weights_on_callers_index(chk):
+    """R18.6: segment_time_series is interpreted with the weight builders as recorders: they must be given the caller's index itself
+    (its months are the local calendar months of the hours), and the frame handed back must be the one they built."""
+    from engine.absint import Opaque
+    from engine.pyinterp import Stub, StubCall
+    r6 = chk.rule("R18.6", "month weights are built from the caller's own index (local calendar months), for every segment type, time-zone-aware or not, with and without dropping empty segments", 16)
+    st = chk.repo.func(SEG, "segment_time_series")
+    builders = {"single": "_segment_weights_single", "one_month": "_segment_weights_one_month", "three_month": "_segment_weights_three_month",
+                "three_month_weighted": "_segment_weights_three_month_weighted"}
+
+    class IndexTok(Stub):
+        def __init__(self, aware, ops=()):
+            self.aware, self.ops = aware, tuple(ops)
+            self.tz = Opaque("tz") if aware else None
+            self.tzinfo = self.tz
+
+        def __getattr__(self, name):
+            if name.startswith("_"):
+                raise AttributeError(name)
+
+            def op(*a, **k):
+                return IndexTok(self.aware, self.ops + (f"{name}({', '.join(map(repr, a))})",))
+            return op
+
+    class Totals(Stub):
+        def __init__(self, cols): self.cols = list(cols)
+        def __gt__(self, o): return self
+        def __getitem__(self, k): return self
+        @property
+        def index(self): return self
+        def tolist(self): return list(self.cols)
+        to_list = tolist
+
+    class WFrame(Stub):
+        _settable = True
+
+        def __init__(self, builder, on, cols=("a", "b")):
+            self.builder, self.on, self.cols = builder, on, list(cols)
+            self.index = on
+
+        def sum(self, *a, **k): return Totals(self.cols)
+
+        def __getitem__(self, k):
+            if isinstance(k, list):
+                w = WFrame(self.builder, self.on, k)
+                w.index = self.index
+                return w
+            raise Unsupported("weights[...] with a key that is not a column list")
+
+        @property
+        def columns(self): return list(self.cols)
+
+        def loc(self): raise Unsupported("weights.loc")
+
+    for seg_type, bname in builders.items():
+        for aware in (True, False):
+            for drop in (False, True):
+                calls = []
+
+                def mk(b):
+                    return StubCall(lambda ix, *a, **k: (calls.append((b, ix)), WFrame(b, ix))[1])
+                stand = {n: mk(n) for n in builders.values()}
+                stand["_get_hourly_coverage_warning"] = StubCall(lambda *a, **k: None)
+                stand["_get_calendar_year_coverage_warning"] = StubCall(lambda *a, **k: None)
+                it = Interp(step_limit=20_000)
+                caller = IndexTok(aware)
+                key = f"{st.key}|{seg_type}|{'tz-aware' if aware else 'naive'}|drop_empty={drop}"
+                try:
+                    res = Function(st.node, ModuleEnv(chk.repo, st.module, it, stand), it)(caller, seg_type, drop)
+                except InterpRaised as e:
+                    r6.require(False, key, st.where(), f"segment_time_series raises {e.exc_name} for segment type `{seg_type}`")
+                    continue
+                except Unsupported as e:
+                    raise AnalysisError(f"{st.key}: uses an operation outside the modelled subset: {e}")
+                bad = None
+                if [b for b, ix in calls] != [bname]:
+                    bad = f"segment type `{seg_type}` must be built by {bname} (called: {[b for b, ix in calls]})"
+                elif calls[0][1] is not caller:
+                    ix = calls[0][1]
+                    bad = (f"the weights are built on `index.{'.'.join(ix.ops)}`, not on the caller's index: the month of an hour is then not its local calendar month "
+                           f"(hours within the UTC offset of a month boundary are weighted into, and predicted by, the neighbouring month's model)") if isinstance(ix, IndexTok) else "the weights are not built on the caller's index"
+                elif not isinstance(res, WFrame) or res.builder != bname:
+                    bad = "the frame handed back is not the one the weight builder made"
+                elif res.index is not caller:
+                    bad = "the weights' index is replaced by something other than the caller's index"
+                r6.require(bad is None, key, st.where(), f"segment_time_series: {bad}", sample={"segment_type": seg_type, "tz_aware": aware, "drop_empty": drop})
